@@ -446,18 +446,117 @@ fn run_enc(enc: &str, font: &BitFont, want: &Ref, second: Option<Second>, slot: 
     }
 }
 
+// ------------------------------------------------------------------------------------------------ construction routes
+
+/// How the font object that goes into the encoding was made. The expected result of every encoding is the glyph
+/// data the font object REPORTS (`glyphs` / `get_glyph`), never a cached field (name, checksum, font type).
+/// * create_8 / from_basic / from_raw (`from_bytes` of headerless glyph bytes) / from_psf2 (`from_bytes` of PSF2 bytes
+///   written by the harness): from the case's glyph model;
+/// * edited: a built-in font page or SAUCE font whose glyphs (1..=8 of them) were then changed IN PLACE through the
+///   public `glyphs` map / `get_glyph_mut`, name kept, `calculate_checksum` not called (the way a font editor works);
+/// * edited_renamed: the same, and the name changed; * renamed: a built-in font with only the name changed.
+pub const ROUTES: &[&str] = &["create_8", "from_basic", "from_raw", "from_psf2", "edited", "edited_renamed", "renamed"];
+
+fn source_count() -> usize {
+    PAGES + SAUCE_FONT_NAMES.len()
+}
+
+fn source_label(src: usize) -> String {
+    if src < PAGES {
+        format!("page:{src}")
+    } else {
+        format!("sauce:{}", SAUCE_FONT_NAMES[(src - PAGES).min(SAUCE_FONT_NAMES.len() - 1)])
+    }
+}
+
+fn load_source(label: &str) -> Result<BitFont, Verdict> {
+    let loaded = if let Some(n) = label.strip_prefix("page:") { BitFont::from_ansi_font_page(n.parse().unwrap_or(usize::MAX)) } else { BitFont::from_sauce_name(label.strip_prefix("sauce:").unwrap_or("")) };
+    loaded.map_err(|e| Verdict::fail("builtin|load_error", format!("{label} cannot be loaded: {e}")))
+}
+
+/// the model of a built-in font is what the font object reports: size, length, glyphs 0..length
+fn reported(label: &str, font: &BitFont) -> Result<Ref, Verdict> {
+    if font.length <= 0 || font.size.height <= 0 {
+        return Err(Verdict::fail("builtin|empty", format!("{label}: length {} height {}", font.length, font.size.height)));
+    }
+    let mut data = Vec::new();
+    for g in 0..font.length as u32 {
+        match char::from_u32(g).and_then(|ch| font.get_glyph(ch)) {
+            Some(gl) if gl.data.len() == font.size.height as usize => data.extend(&gl.data),
+            Some(gl) => return Err(Verdict::fail("builtin|glyph_height", format!("{label}: glyph {g} has {} rows, font height is {}", gl.data.len(), font.size.height))),
+            None => return Err(Verdict::fail("builtin|glyph_missing", format!("{label}: glyph {g} of {} is missing in the shipped font", font.length))),
+        }
+    }
+    Ok(Ref { w: font.size.width, h: font.size.height, len: font.length, data })
+}
+
+/// change glyphs in place (font object and model alike); `new_glyph(g, old)` gives the new rows
+fn edit_in_place(font: &mut BitFont, want: &mut Ref, glyphs: &[u8], new_glyph: &dyn Fn(usize, &[u8]) -> Vec<u8>) {
+    let h = want.h as usize;
+    for (i, g) in glyphs.iter().enumerate() {
+        let g = *g as usize % want.len as usize;
+        let old = want.glyph(g).to_vec();
+        let mut new = new_glyph(g, &old);
+        new.resize(h, 0);
+        if new == old {
+            new[0] ^= 0x01;
+        }
+        let ch = char::from_u32(g as u32).unwrap();
+        // both public ways to reach a glyph
+        let slot = if i % 2 == 0 { font.get_glyph_mut(ch) } else { font.glyphs.get_mut(&ch) };
+        if let Some(gl) = slot {
+            gl.data.copy_from_slice(&new);
+        }
+        want.data[g * h..(g + 1) * h].copy_from_slice(&new);
+    }
+}
+
+/// build the font object for a built-in based route
+fn builtin_route(route: &str, label: &str, glyphs: &[u8], new_glyph: &dyn Fn(usize, &[u8]) -> Vec<u8>) -> Result<(BitFont, Ref), Verdict> {
+    let mut font = load_source(label)?;
+    let mut want = reported(label, &font)?;
+    if matches!(route, "edited" | "edited_renamed") {
+        edit_in_place(&mut font, &mut want, glyphs, new_glyph);
+    }
+    if matches!(route, "edited_renamed" | "renamed") {
+        font.name = "icyv edited font".to_string();
+    }
+    // harness sanity: the object reports what the model says
+    compare("route.builtin", &font, &want)?;
+    Ok((font, want))
+}
+
+/// A failure on a route other than create_8 is re-tried with a create_8 font of the same glyph data: when that
+/// fails with the same key the defect does not depend on the route (plain key), otherwise the route is part of the key.
+fn attribute_route(v: Verdict, route: &str, rerun: &dyn Fn() -> EncResult) -> Verdict {
+    let Verdict::Fail { key, msg } = &v else { return v };
+    if route == "create_8" {
+        return v;
+    }
+    match rerun() {
+        Err(Verdict::Fail { key: k2, .. }) if k2 == *key => v,
+        _ => Verdict::fail(format!("{key}|route={route}"), format!("[font made by route '{route}'; the same glyphs in a fresh create_8 font pass] {msg}")),
+    }
+}
+
 // ------------------------------------------------------------------------------------------------ generated part
 
 #[derive(Clone, Debug, Hash, Serialize, Deserialize)]
 pub struct BmCase {
     /// index into ENCS
     pub enc: u8,
+    /// index into ROUTES
+    pub route: u8,
+    /// built-in routes: selector of the font page / SAUCE font (0 = page 0, the default font)
+    pub src: u16,
+    /// built-in routes: numbers of the glyphs edited in place (their new rows are the model font's rows of that glyph)
+    pub edits: Vec<u8>,
     pub font: FontM,
     /// xb2: the second font (its height is forced to the first font's); icy: a further font in slot max(slot,1)
     pub font2: Option<FontM>,
     /// font slot for the DCS sequence / the extra IcyDraw font
     pub slot: u16,
-    /// bit 0: SaveOptions::compress, bit 1: build with from_basic instead of create_8
+    /// bit 0: SaveOptions::compress
     pub flags: u8,
 }
 
@@ -514,7 +613,12 @@ pub fn cases() -> BoxedStrategy<BmCase> {
                 _ => Just(None).boxed(),
             };
             let slot = prop_oneof![3 => Just(0u16), 4 => 1u16..=42, 2 => 43u16..=255, 1 => 256u16..=u16::MAX];
-            (fonts(h, big), second, slot, 0u8..4).prop_map(move |(font, font2, slot, flags)| BmCase { enc, font, font2, slot, flags }).boxed()
+            // the route is independent of the glyph data and of the encoding
+            let route = prop_oneof![3 => Just(0u8), 2 => Just(1u8), 2 => Just(2u8), 2 => Just(3u8), 3 => Just(4u8), 2 => Just(5u8), 1 => Just(6u8)];
+            let src = prop_oneof![3 => Just(0u16), 3 => any::<u16>()];
+            (fonts(h, big), second, slot, 0u8..2, route, src, vec(any::<u8>(), 1..=8))
+                .prop_map(move |(font, font2, slot, flags, route, src, edits)| BmCase { enc, route, src, edits, font, font2, slot, flags })
+                .boxed()
         })
         .collect();
     proptest::strategy::Union::new(per_enc).boxed()
@@ -526,31 +630,65 @@ fn ref_of(m: &FontM, enc: &str, force_h: Option<u8>) -> Ref {
     Ref { w: 8, h: h as i32, len: glyphs as i32, data: m.data(h as usize, glyphs) }
 }
 
+/// font object + model for the case's route
+fn make(c: &BmCase, enc: &str, route: &str) -> Result<(BitFont, Ref), Verdict> {
+    match route {
+        "edited" | "edited_renamed" | "renamed" => {
+            let label = source_label(pick(c.src, source_count()));
+            let m = &c.font;
+            builtin_route(route, &label, &c.edits, &|g, old| {
+                let h = old.len();
+                m.data(h, 256)[g % 256 * h..(g % 256 + 1) * h].to_vec()
+            })
+        }
+        _ => {
+            let want = ref_of(&c.font, enc, None);
+            let raw_ok = want.len == 256 && !want.psf_magic();
+            let (tag, font) = match route {
+                "from_basic" => ("from_basic", build(&want, true)),
+                "from_raw" if raw_ok => match BitFont::from_bytes("icyv font", &want.data) {
+                    Ok(f) => ("raw", f),
+                    Err(e) => return Err(Verdict::fail("raw|load_error", format!("from_bytes rejects {} bytes of raw glyph data (height {}): {e}", want.data.len(), want.h))),
+                },
+                // (glyph bytes that cannot be given headerless go through PSF2 instead)
+                "from_raw" | "from_psf2" => match BitFont::from_bytes("icyv font", &ref_psf2(&want)) {
+                    Ok(f) => ("psf2.read", f),
+                    Err(e) => return Err(Verdict::fail("psf2.read|load_error", format!("from_bytes rejects a PSF2 file with {} glyphs of height {}: {e}", want.len, want.h))),
+                },
+                _ => ("create_8", build(&want, false)),
+            };
+            // the constructors / loaders are themselves conversions of the statement (glyph bytes -> font object)
+            compare(tag, &font, &want)?;
+            Ok((font, want))
+        }
+    }
+}
+
 pub fn check(c: &BmCase) -> Verdict {
     let enc = ENCS[c.enc as usize % ENCS.len()];
-    let basic = c.flags & 2 != 0;
-    let want = ref_of(&c.font, enc, None);
-    let font = build(&want, basic);
-    // the constructors are themselves one of the statement's conversions (glyph bytes -> create_8 / from_basic)
-    if let Err(v) = compare(if basic { "from_basic" } else { "create_8" }, &font, &want) {
-        return v;
-    }
+    let route = ROUTES[c.route as usize % ROUTES.len()];
+    let (font, want) = match make(c, enc, route) {
+        Ok(x) => x,
+        Err(v) => return v,
+    };
     let second_ref = match (enc, &c.font2) {
-        ("xb2", Some(m)) => Some(ref_of(m, enc, Some(want.h as u8))),
+        ("xb2", Some(m)) if want.h <= 32 => Some(ref_of(m, enc, Some(want.h as u8))),
         ("icy", Some(m)) => Some(ref_of(m, enc, None)),
         _ => None,
     };
-    let second_font = second_ref.as_ref().map(|r| build(r, basic));
-    let second = match (&second_font, &second_ref) {
+    let second_font = second_ref.as_ref().map(|r| build(r, false));
+    let second = || match (&second_font, &second_ref) {
         (Some(f), Some(r)) => Some(Second { font: f, want: r, slot: c.slot.max(1) as usize }),
         _ => None,
     };
-    match run_enc(enc, &font, &want, second, c.slot as usize, c.flags & 1 != 0) {
+    let compress = c.flags & 1 != 0;
+    match run_enc(enc, &font, &want, second(), c.slot as usize, compress) {
         Ok((suffix, performed)) => {
             let big = if want.len == 512 { "+512" } else { "" };
-            Verdict::pass(performed && want.varied(), format!("{enc}{big}{suffix}"))
+            let skipped = if performed { "" } else { suffix };
+            Verdict::pass(performed && want.varied(), format!("{enc}{big}|{route}{skipped}"))
         }
-        Err(v) => v,
+        Err(v) => attribute_route(v, route, &|| run_enc(enc, &build(&want, false), &want, second(), c.slot as usize, compress)),
     }
 }
 
@@ -577,6 +715,19 @@ pub fn minimize(c: &BmCase) -> Vec<BmCase> {
         }
         v
     };
+    if c.route != 0 {
+        out.push(BmCase { route: 0, ..c.clone() });
+    }
+    if c.src != 0 {
+        out.push(BmCase { src: 0, ..c.clone() });
+    }
+    if c.edits.len() > 1 {
+        out.push(BmCase { edits: c.edits[..1].to_vec(), ..c.clone() });
+        out.push(BmCase { edits: c.edits[1..].to_vec(), ..c.clone() });
+    }
+    if c.edits != [b'A'] {
+        out.push(BmCase { edits: vec![b'A'], ..c.clone() });
+    }
     for f in simpler_font(&c.font) {
         out.push(BmCase { font: f, ..c.clone() });
     }
@@ -600,57 +751,51 @@ pub fn minimize(c: &BmCase) -> Vec<BmCase> {
 
 // ------------------------------------------------------------------------------------------------ enumerated part: built-in fonts
 
+/// every font page / SAUCE font x every encoding x {as loaded, edited in place, edited in place and renamed, renamed}
+pub const BUILTIN_ROUTES: &[&str] = &["builtin", "edited", "edited_renamed", "renamed"];
+
 #[derive(Clone, Debug, Hash, Serialize, Deserialize)]
 pub struct BuiltinCase {
     /// "page:<n>" or "sauce:<name>"
     pub source: String,
     pub enc: String,
+    /// one of BUILTIN_ROUTES; the edit redraws the glyphs 'A', 'B' and 0xDB: row y of the i-th ^= 0x81 | 1 << ((y + i) % 8)
+    pub route: String,
 }
 
 pub fn builtin_total() -> u64 {
-    ((PAGES + SAUCE_FONT_NAMES.len()) * ENCS.len()) as u64
+    (source_count() * ENCS.len() * BUILTIN_ROUTES.len()) as u64
 }
 
 pub fn builtin_case(i: u64) -> BuiltinCase {
-    let src = i as usize / ENCS.len();
-    let enc = ENCS[i as usize % ENCS.len()].to_string();
-    let source = if src < PAGES { format!("page:{src}") } else { format!("sauce:{}", SAUCE_FONT_NAMES[src - PAGES]) };
-    BuiltinCase { source, enc }
+    let i = i as usize;
+    let route = BUILTIN_ROUTES[i % BUILTIN_ROUTES.len()].to_string();
+    let i = i / BUILTIN_ROUTES.len();
+    let enc = ENCS[i % ENCS.len()].to_string();
+    BuiltinCase { source: source_label(i / ENCS.len()), enc, route }
 }
 
 pub fn check_builtin(c: &BuiltinCase) -> Verdict {
-    let loaded = if let Some(n) = c.source.strip_prefix("page:") {
-        BitFont::from_ansi_font_page(n.parse().unwrap_or(usize::MAX))
-    } else {
-        BitFont::from_sauce_name(c.source.strip_prefix("sauce:").unwrap_or(""))
+    let route = c.route.as_str();
+    let edited = [b'A', b'B', 0xDB];
+    let (font, want) = match builtin_route(route, &c.source, &edited, &|g, old| {
+        let i = edited.iter().position(|e| *e as usize == g).unwrap_or(0);
+        old.iter().enumerate().map(|(y, row)| row ^ (0x81 | (1 << ((y + i) % 8)))).collect()
+    }) {
+        Ok(x) => x,
+        Err(v) => return v,
     };
-    let font = match loaded {
-        Ok(f) => f,
-        Err(e) => return Verdict::fail("builtin|load_error", format!("{} cannot be loaded: {e}", c.source)),
-    };
-    // the model of a built-in font is what the engine's loader made of the shipped file: size, length, glyphs 0..length
-    let mut data = Vec::new();
-    for g in 0..font.length.max(0) as u32 {
-        match char::from_u32(g).and_then(|ch| font.get_glyph(ch)) {
-            Some(gl) if gl.data.len() == font.size.height as usize => data.extend(&gl.data),
-            Some(gl) => return Verdict::fail("builtin|glyph_height", format!("{}: glyph {g} has {} rows, font height is {}", c.source, gl.data.len(), font.size.height)),
-            None => return Verdict::fail("builtin|glyph_missing", format!("{}: glyph {g} of {} is missing in the shipped font", c.source, font.length)),
-        }
-    }
-    if font.length <= 0 || font.size.height <= 0 {
-        return Verdict::fail("builtin|empty", format!("{}: length {} height {}", c.source, font.length, font.size.height));
-    }
-    let want = Ref { w: font.size.width, h: font.size.height, len: font.length, data };
     let enc = c.enc.as_str();
     // second font for the two-font encodings: the bitwise complement (same height, certainly different glyphs)
     let inv = want.inverted();
     let inv_font = if want.w <= 8 && want.len == 256 { Some(build(&inv, false)) } else { None };
-    let second = match (enc, &inv_font) {
+    let second = || match (enc, &inv_font) {
         ("xb2", Some(f)) if want.is_8x256() => Some(Second { font: f, want: &inv, slot: 1 }),
         _ => None,
     };
-    match run_enc(enc, &font, &want, second, if c.source.len() % 2 == 0 { 0 } else { 7 }, true) {
-        Ok((suffix, performed)) => Verdict::pass(performed, format!("{enc}|{}x{}x{}{suffix}", want.w, want.h, want.len)),
-        Err(v) => v,
+    let slot = if c.source.len() % 2 == 0 { 0 } else { 7 };
+    match run_enc(enc, &font, &want, second(), slot, true) {
+        Ok((suffix, performed)) => Verdict::pass(performed, format!("{enc}|{route}|{}x{}x{}{}", want.w, want.h, want.len, if performed { "" } else { suffix })),
+        Err(v) => attribute_route(v, route, &|| run_enc(enc, &build(&want, false), &want, second(), slot, true)),
     }
 }
